@@ -197,8 +197,11 @@ def write_evidence(ctx, status, explanation, samples_n=6):
             "structural clauses only: the behavioural statement of the property is not decided (DESIGN.md section 1)",
         ],
         "wall_s": round(time.time() - ctx.t0, 2),
-        "violations": len(ctx.violations),
+        "violations": sum(1 for v in ctx.violations if not v.get("known")),
     }
+    kf = sorted(set("%s %s" % (v["rule"], v["site"]) for v in ctx.violations if v.get("known")))
+    if kf:
+        cov["known_findings_reported"] = kf
     with open(os.path.join(VERIF, "evidence", "%s.json" % ctx.prop), "w") as f:
         json.dump(ev, f, indent=1)
 
@@ -206,10 +209,14 @@ def write_evidence(ctx, status, explanation, samples_n=6):
 def finish(ctx, prop, module):
     known = load_known()
     new = []
+    printed = set()
     for v in ctx.violations:
         k = match_known(prop, v, known)
         if k is not None:
-            print("KNOWN-FINDING: property=%s %s [%s %s]" % (prop, k.get("what", ""), v["rule"], v["site"]))
+            v["known"] = True
+            if (id(k), v["site"]) not in printed:
+                printed.add((id(k), v["site"]))
+                print("KNOWN-FINDING: property=%s %s [%s %s]" % (prop, k.get("what", ""), v["rule"], v["site"]))
         else:
             new.append(v)
     for n in ctx.notes:
@@ -256,10 +263,11 @@ def run_property(prop, module, tier):
                 module.extra(ctx)
             if not ctx.obligations:
                 raise AnalysisBroken("no obligation was evaluated")
-            if ctx.unmet and not ctx.violations:
+            known = load_known()
+            if ctx.unmet and not [v for v in ctx.violations if match_known(prop, v, known) is None]:
                 raise AnalysisBroken("; ".join(ctx.unmet))
         except AnalysisBroken as e:
-            if ctx.violations and not isinstance(e, ExtractionBroken):
+            if [v for v in ctx.violations if match_known(prop, v, load_known()) is None] and not isinstance(e, ExtractionBroken):
                 # concrete violations were already established before the analysis lost an anchor:
                 # they stand on their own (each names its construct); report them
                 ctx.note("analysis stopped early: %s" % e)
